@@ -16,6 +16,8 @@ def run(tier, seed):
             cases.append(Case('args_h%d_m%d' % (kind, m), 'hash', 'zzC19_args', [kind, m], opts=HS))
     for op in range(7):
         cases.append(Case('bls_op%d' % op, 'crypto', 'zzC19_bls', [op], opts={'setup': 'symex.setup_c:with_galg'}))
+    for w in (0, 1, 2):
+        cases.append(Case('decoders_%d' % w, 'crypto', 'zzC19_decoders', [w], opts={'setup': 'symex.setup_c:with_c'}))
     lens = set([32, 31, 30, 1]) if thorough else set([32, 31])
     for algo in (0, 1):
         for op in (0, 1):
@@ -24,7 +26,7 @@ def run(tier, seed):
     return run_check('C19', cases, tier, seed, replay_flags='-race',
         functions=['(*hash.kmac128).ComputeHash', '(*crypto.prKeyBLSBLS12381).Sign', '(*crypto.pubKeyBLSBLS12381).Verify', 'crypto.BLSVerifyPOP', 'crypto.SPOCKVerify',
                    'crypto.VerifyBLSSignatureOneMessage', 'crypto.VerifyBLSSignatureManyMessages', 'crypto.BatchVerifyBLSSignaturesOneMessage',
-                   '(*crypto.prKeyECDSA).Sign', '(*crypto.pubKeyECDSA).Verify', 'C:bls_sign', 'C:bls_verify', 'C:bls_spock_verify', 'C:bls_verifyPerDistinctMessage', 'C:bls_verifyPerDistinctKey', 'C:bls_batch_verify'],
+                   '(*crypto.prKeyECDSA).Sign', '(*crypto.pubKeyECDSA).Verify', 'C:E1_read_bytes', 'C:E2_read_bytes', 'C:Fr_star_read_bytes', 'C:bls_sign', 'C:bls_verify', 'C:bls_spock_verify', 'C:bls_verifyPerDistinctMessage', 'C:bls_verifyPerDistinctKey', 'C:bls_batch_verify'],
         bounds={'method': 'write-effect check: each listed operation is executed once on symbolic inputs; every store of the Go and C code and every declared mutation of a library object is logged and attributed to its memory object; the assertion is that no object that existed before the call is written',
                 'operations': 'KMAC128 ComputeHash (key/prefix/message lengths %s); BLS Sign, Verify, BLSVerifyPOP, SPOCKVerify, VerifyBLSSignatureOneMessage, VerifyBLSSignatureManyMessages, BatchVerifyBLSSignaturesOneMessage with two keys sharing one KMAC hasher; ECDSA Sign / Verify on both curves with per-call hashers' % kms,
                 'why this covers schedules': 'two calls that write nothing shared cannot race with each other and are deterministic functions of data nobody writes; goroutine counts and interleavings therefore do not enter',
